@@ -7,6 +7,7 @@ name=$1; prop=$2; wt=$3; dest=$4; pkg=$5; run=$6
 export GOFLAGS="-mod=mod ${VERIF_TAGS:+-tags=$VERIF_TAGS}" GOPROXY=off
 unset GOTOOLCHAIN
 cd "$wt" || exit 2
+case "$dest" in /*|_mut/*) echo "argument 4 is the demo DESTINATION relative to the worktree (e.g. kmipclient/demo_mut_test.go), not the demo itself"; exit 2;; esac
 demo=$(ls _mut/demo*_test.go _mut/demo_test.go 2>/dev/null | head -1)
 [ -f _mut/patch.diff ] || { echo "no patch"; exit 2; }
 git checkout -q -- . ; rm -f "$dest"
